@@ -277,6 +277,9 @@ class Engine:
         self.merge_fns = []
         self.merging = True
         self.static_objs = {}
+        self.int_mode = False      # unsigned 64-bit integers as mathematical integers (exact when every +,-,* is overflow-checked: dev-profile MIR)
+        self.len_bounds = []
+        self.fmt_cache = {}
         self.nd = []
         self.drop_impls = False
         self.solver = z3.Solver()
@@ -635,6 +638,8 @@ class Engine:
             return z3.BoolVal(v)
         if z3.is_bool(v):
             return v
+        if z3.is_expr(v) and z3.is_int(v):
+            return v != 0
         if z3.is_bv(v):
             return v != 0
         raise Unsupported(f"as_bool {v}")
@@ -925,7 +930,15 @@ class Engine:
         c = c.strip()
         m = re.match(r"^(-?\d+)_(\w+)$", c)
         if m and m.group(2) in INT_W:
+            if self.int_mode and INT_W[m.group(2)] == 64 and m.group(2) not in SIGNED:
+                return z3.IntVal(int(m.group(1)))
             return bv(int(m.group(1)), INT_W[m.group(2)])
+        m = re.match(r"^(?:(?:std|core)::)?(\w+)::(MAX|MIN)$", c)
+        if m and m.group(1) in INT_W:
+            w = INT_W[m.group(1)]
+            if m.group(1) in SIGNED:
+                return bv((1 << (w - 1)) - 1 if m.group(2) == "MAX" else (1 << (w - 1)), w)
+            return bv((1 << w) - 1 if m.group(2) == "MAX" else 0, w)
         if c == "true":
             return z3.BoolVal(True)
         if c == "false":
@@ -938,7 +951,9 @@ class Engine:
             x = float(m.group(1).replace("NaN", "nan"))
             return bv(struct.unpack("<Q", struct.pack("<d", x))[0], 64)
         if c.startswith('"') or c.startswith("b\""):
-            return Opaque("str:" + c[:40])
+            lit = c[2:-1] if c.startswith("b") else c[1:-1]
+            n = len(re.sub(r"\\(x[0-9a-fA-F]{2}|u\{[0-9a-fA-F]+\}|.)", "X", lit))
+            return Native("str", (lit[:24], n))
         if c.startswith("ZeroSized: "):
             t = c[11:].strip()
             if t.startswith("{closure@"):
@@ -1095,6 +1110,8 @@ class Engine:
             raise Unsupported(f"binop {name} on {a}, {b}")
         if (ty or "").strip() in ("f64", "f32") and z3.is_bv(a) and z3.is_bv(b):
             return self.float_binop(name, a, b, ty.strip())
+        if (z3.is_expr(a) and z3.is_int(a)) or (z3.is_expr(b) and z3.is_int(b)) or (self.int_mode and isinstance(a, int) and isinstance(b, int)):
+            return self.int_binop(name, a, b)
         w, signed = self.int_info(ty)
         if z3.is_bool(a) and z3.is_bool(b):
             return {"Eq": a == b, "Ne": a != b, "BitAnd": z3.And(a, b), "BitOr": z3.Or(a, b), "BitXor": z3.Xor(a, b)}[name]
@@ -1146,6 +1163,53 @@ class Engine:
             return Agg({0: r, 1: ov})
         raise Unsupported(f"binop {name}")
 
+    def to_int(self, x):
+        if isinstance(x, bool):
+            return z3.IntVal(int(x))
+        if isinstance(x, int):
+            return z3.IntVal(x)
+        if z3.is_int(x):
+            return x
+        if z3.is_bv(x):
+            return z3.BV2Int(x)
+        if z3.is_bool(x):
+            return z3.If(x, 1, 0)
+        raise Unsupported(f"to_int {x}")
+
+    def int_binop(self, name, a, b):
+        """unsigned 64-bit arithmetic over mathematical integers: exact below 2^64, the overflow flag says when not"""
+        a, b = self.to_int(a), self.to_int(b)
+        M = z3.IntVal(1 << 64)
+        if name in ("Add", "AddUnchecked"):
+            return a + b
+        if name in ("Sub", "SubUnchecked"):
+            return a - b
+        if name in ("Mul", "MulUnchecked"):
+            return a * b
+        if name == "AddWithOverflow":
+            return Agg({0: a + b, 1: (a + b) >= M})
+        if name == "SubWithOverflow":
+            return Agg({0: a - b, 1: a < b})
+        if name == "MulWithOverflow":
+            return Agg({0: a * b, 1: (a * b) >= M})
+        if name == "Eq":
+            return a == b
+        if name == "Ne":
+            return a != b
+        if name == "Lt":
+            return a < b
+        if name == "Le":
+            return a <= b
+        if name == "Gt":
+            return a > b
+        if name == "Ge":
+            return a >= b
+        if name == "Div":
+            return a / b
+        if name == "Rem":
+            return a % b
+        raise Unsupported(f"integer-mode binop {name}")
+
     def float_binop(self, name, a, b, ty):
         if self.float_mode == "uf" and name in ("Add", "Sub", "Mul", "Div"):
             # float arithmetic as an uninterpreted function of the operand bits: the properties decided here depend only
@@ -1189,6 +1253,11 @@ class Engine:
     def cast(self, v, ty, kind, from_ty):
         if kind.startswith("PointerCoercion") or kind in ("PtrToPtr", "FnPtrToPtr", "Transmute") and isinstance(v, (Ptr, FnItem, Closure)):
             return v
+        if kind == "IntToInt" and z3.is_expr(v) and z3.is_int(v):
+            w, _ = self.int_info(ty)
+            if w is None or w >= 64:
+                return v
+            return v % (1 << w)
         if kind == "IntToInt":
             w, _ = self.int_info(ty)
             fw, fsigned = self.int_info(from_ty)
